@@ -100,15 +100,18 @@ theorem C03_fitness_of_all_satisfied_is_one (h r : Nat) (hb : h + r < 2 ^ 53) (s
     · have hrpos : 0 < r := by omega
       simp [fitnessFormula, hm, hr, ha, hd, hpos, hrpos]
 
-/-- the acceptance comparison of the source accepts fitness 1.0 against `expected_fitness = 1.0` -/
-theorem C03_acceptance_test_accepts_one : acceptCmp one one = true := by
-  simp [acceptCmp, fge_one_one]
+/-- the acceptance comparison of the source accepts fitness 1.0 against `expected_fitness = 1.0` (the
+    default) and against every lower threshold a caller may pass -/
+theorem C03_acceptance_test_accepts_one (expected : F) (he : fle expected one = true) :
+    acceptCmp one expected = true := by
+  simpa [acceptCmp, fge] using he
 
 /-- `C03_accept_if_all_satisfied`: every tree that satisfies all `h` hard and all `r`
     repetition-bounds constraints (no soft ones) has fitness exactly 1.0 and passes the test -/
 theorem C03_accept_if_all_satisfied (ind : Individual) (hsoft : ind.soft = 0)
-    (hs : ind.allSatisfied) (hb : ind.hard.length + ind.rep.length < 2 ^ 53) :
-    ind.fitness = one ∧ acceptCmp ind.fitness one = true := by
+    (hs : ind.allSatisfied) (hb : ind.hard.length + ind.rep.length < 2 ^ 53)
+    (expected : F) (he : fle expected one = true) :
+    ind.fitness = one ∧ acceptCmp ind.fitness expected = true := by
   obtain ⟨h1, h2⟩ := allSatisfied_lists ind hs
   have e : ind.fitness = one := by
     unfold Individual.fitness
@@ -116,7 +119,7 @@ theorem C03_accept_if_all_satisfied (ind : Individual) (hsoft : ind.soft = 0)
       C03_class_mean_of_satisfied_is_one _ (by omega), hsoft]
     simp only [List.length_replicate]
     exact C03_fitness_of_all_satisfied_is_one _ _ hb _
-  exact ⟨e, by rw [e]; exact C03_acceptance_test_accepts_one⟩
+  exact ⟨e, by rw [e]; exact C03_acceptance_test_accepts_one expected he⟩
 
 /-! ## 4. the first evaluation yields the tree -/
 
@@ -154,12 +157,13 @@ theorem C03_wf_preserved (e : F) (st : EvalState) (ind : Individual) (hw : st.wf
 theorem C03_first_seen_is_emitted (st : EvalState) (ind : Individual) (hw : st.wf)
     (hnew : st.fitnessCache.lookup ind.key = none)
     (hsoft : ind.soft = 0) (hs : ind.allSatisfied)
-    (hb : ind.hard.length + ind.rep.length < 2 ^ 53) :
-    (evaluateIndividual one st ind).emitted = [ind.key] ∧
-    ind.key ∈ (evaluateIndividual one st ind).state.solutionSet ∧
-    (evaluateIndividual one st ind).state.fitnessCache.lookup ind.key = some one ∧
-    (evaluateIndividual one st ind).fitness = one := by
-  obtain ⟨hf, hacc⟩ := C03_accept_if_all_satisfied ind hsoft hs hb
+    (hb : ind.hard.length + ind.rep.length < 2 ^ 53)
+    (expected : F) (he : fle expected one = true) :
+    (evaluateIndividual expected st ind).emitted = [ind.key] ∧
+    ind.key ∈ (evaluateIndividual expected st ind).state.solutionSet ∧
+    (evaluateIndividual expected st ind).state.fitnessCache.lookup ind.key = some one ∧
+    (evaluateIndividual expected st ind).fitness = one := by
+  obtain ⟨hf, hacc⟩ := C03_accept_if_all_satisfied ind hsoft hs hb expected he
   have hns : st.solutionSet.contains ind.key = false := by
     cases hcon : st.solutionSet.contains ind.key with
     | false => rfl
@@ -168,8 +172,8 @@ theorem C03_first_seen_is_emitted (st : EvalState) (ind : Individual) (hw : st.w
       have := hw _ hm
       rw [hnew] at this; simp at this
   have hnm : ind.key ∉ st.solutionSet := by simpa using hns
-  have hem2 : emitCondition one one (decide (ind.key ∈ st.solutionSet)) = true := by
-    simp [emitCondition, C03_acceptance_test_accepts_one, hnm]
+  have hem2 : emitCondition one expected (decide (ind.key ∈ st.solutionSet)) = true := by
+    simp [emitCondition, C03_acceptance_test_accepts_one expected he, hnm]
   unfold evaluateIndividual
   simp [hnew, hf, hem2]
 
@@ -199,6 +203,12 @@ theorem C03_example_run :
 example : exSat.allSatisfied ∧ exSat.soft = 0 ∧ exSat.hard.length + exSat.rep.length < 2 ^ 53 := by
   refine ⟨⟨?_, ?_⟩, rfl, by decide⟩ <;> intro x hx <;> simp [exSat] at hx <;> simp [hx]
 
+/-- the hypotheses of the run theorems (§5) hold for that run: keys identify the trees, no soft
+    constraints, sizes in range -/
+example : (∀ a ∈ [exUnsat, exSat, exSat, exUnsat], ∀ b ∈ [exUnsat, exSat, exSat, exUnsat], a.key = b.key → a = b) ∧
+    (∀ a ∈ [exUnsat, exSat, exSat, exUnsat], a.soft = 0) ∧
+    (∀ a ∈ [exUnsat, exSat, exSat, exUnsat], a.hard.length + a.rep.length < 2 ^ 53) := by decide +kernel
+
 /-! ## 5. whole runs: every satisfied tree is reported exactly once, at its first evaluation -/
 
 /-- In a run from any reachable state over trees that are identified by their keys, every tree that
@@ -226,7 +236,7 @@ theorem C03_run_emits_every_satisfied_tree (st : EvalState) (inds : List Individ
       by_cases hax : a.key = x.key
       · have hxa : a = x := hkey a ha x List.mem_cons_self hax
         subst hxa
-        have := (C03_first_seen_is_emitted st a hw hc (hsoft a ha) hsat (hb a ha)).1
+        have := (C03_first_seen_is_emitted st a hw hc (hsoft a ha) hsat (hb a ha) one fle_one_one).1
         simp [this]
       · have har : a ∈ rest := by
           rcases List.mem_cons.1 ha with h | h
